@@ -10,7 +10,7 @@ namespace Sozu.Hub
 -- ------------------------------------------------------ configuration ----
 
 theorem step_retire (h : Hub) (op : Op) : (step h op).retire = h.retire := by
-  cases op <;> simp only [step, request, response, close, tick, lookup] <;> (repeat' split) <;> simp
+  cases op <;> simp only [step, request, response, close, sendFail, tick, lookup] <;> (repeat' split) <;> simp
 
 theorem run_retire (h : Hub) (ops : List Op) : (run h ops).retire = h.retire := by
   induction ops generalizing h with
@@ -19,7 +19,7 @@ theorem run_retire (h : Hub) (ops : List Op) : (run h ops).retire = h.retire := 
 
 theorem step_cfg (h : Hub) (op : Op) :
     (step h op).fwd = h.fwd ∧ (step h op).stopExcl = h.stopExcl ∧ (step h op).timeout = h.timeout := by
-  cases op <;> simp only [step, request, response, close, tick, lookup] <;> (repeat' split) <;> simp
+  cases op <;> simp only [step, request, response, close, sendFail, tick, lookup] <;> (repeat' split) <;> simp
 
 theorem run_cfg (h : Hub) (ops : List Op) :
     (run h ops).fwd = h.fwd ∧ (run h ops).stopExcl = h.stopExcl ∧ (run h ops).timeout = h.timeout := by
@@ -130,6 +130,7 @@ theorem bounds_step (h : Hub) (op : Op) (hb : Bounds h) : Bounds (step h op) := 
           have := ht t0 ht0
           simp; omega
   | close w => simp only [step, close]; split <;> exact ⟨ht, hl⟩
+  | sendFail w => simp only [step, sendFail]; split <;> exact ⟨ht, hl⟩
   | advance n => exact ⟨ht, hl⟩
   | drop c => simp only [step]; split <;> exact ⟨ht, hl⟩
   | tick =>
@@ -225,6 +226,7 @@ theorem acct_step_old (h : Hub) (op : Op) (hb : Bounds h) (hc : OneVerdict h) (r
         finals_zero_of _ _ (fun e he => Or.inr (responseEmits_req h rid st e he).1)
       omega
   | close w => simp only [step, close]; split <;> rfl
+  | sendFail w => simp only [step, sendFail]; split <;> rfl
   | advance n => rfl
   | drop c => simp only [step]; split <;> rfl
   | tick =>
@@ -253,13 +255,13 @@ theorem step_nextReq (h : Hub) (op : Op) :
     (step h op).nextReq = match op with
       | .request _ _ => if h.run = .exited then h.nextReq else h.nextReq + 1
       | _ => h.nextReq := by
-  cases op <;> simp only [step, request, response, close, tick] <;> (try split) <;> simp
+  cases op <;> simp only [step, request, response, close, sendFail, tick] <;> (try split) <;> simp
 
 theorem step_nextReq_mono (h : Hub) (op : Op) : h.nextReq ≤ (step h op).nextReq := by
   rw [step_nextReq]; cases op <;> simp <;> split <;> omega
 
 theorem step_log_prefix (h : Hub) (op : Op) : ∃ l, (step h op).log = h.log ++ l := by
-  cases op <;> simp only [step, request, response, close, tick] <;> (try split) <;>
+  cases op <;> simp only [step, request, response, close, sendFail, tick] <;> (try split) <;>
     first | exact ⟨_, rfl⟩ | exact ⟨[], by simp⟩
 
 theorem finals_step_mono (h : Hub) (op : Op) (r : Nat) : finalsOf r h.log ≤ finalsOf r (step h op).log := by
@@ -382,6 +384,7 @@ theorem timed_step (h : Hub) (op : Op) (ht : Timed h) : Timed (step h op) := by
       have := ht t0 ht0
       simp only [h3, h5, h6]; exact this
   | close w => simp only [step, close]; split <;> exact ht
+  | sendFail w => simp only [step, sendFail]; split <;> exact ht
   | advance n =>
     intro t htm
     have := ht t htm
@@ -443,6 +446,7 @@ theorem owned_step (h : Hub) (op : Op) (hb : Bounds h) (r c : Nat) (v : Verb) (b
       have := ho t0 ht0 (by omega)
       simp only [h3, h4, h6]; exact this
   | close w => simp only [step, close]; split <;> exact ho
+  | sendFail w => simp only [step, sendFail]; split <;> exact ho
   | advance n => exact ho
   | drop c => simp only [step]; split <;> exact ho
   | tick =>
@@ -696,6 +700,7 @@ theorem acc_step (h : Hub) (op : Op) (hb : Bounds h) (ha : Acc h) : Acc (step h 
           exact ⟨taskInv_seen_mono a hm, b⟩
         · have := responseEmits_src h rid st e he; simp [this] at hs
   | close w => simp only [step, close]; split <;> exact ⟨h1, h2, h3, h4, h5⟩
+  | sendFail w => simp only [step, sendFail]; split <;> exact ⟨h1, h2, h3, h4, h5⟩
   | advance n => exact ⟨h1, h2, h3, h4, h5⟩
   | drop c => simp only [step]; split <;> exact ⟨h1, h2, h3, h4, h5⟩
   | tick =>
@@ -736,6 +741,7 @@ theorem seen_step (h : Hub) (op : Op) (r : Rid) :
     · cases st <;> simp [List.count_cons]
   | request c v => simp only [step, request]; split <;> simp
   | close w => simp only [step, close]; split <;> simp
+  | sendFail w => simp only [step, sendFail]; split <;> simp
   | advance n => simp [step]
   | drop c => simp only [step]; split <;> simp
   | tick => simp only [step, tick]; split <;> simp
@@ -790,6 +796,7 @@ theorem logOwned_step (h : Hub) (op : Op) (r c : Nat) (v : Verb) (b : Nat)
       · obtain ⟨_, t, ht, h1, h2⟩ := responseEmits_req h rid st e he
         rw [h2]; exact (ho t ht (by omega)).1
   | close w => simp only [step, close]; split <;> exact hl
+  | sendFail w => simp only [step, sendFail]; split <;> exact hl
   | advance n => exact hl
   | drop c => simp only [step]; split <;> exact hl
   | tick =>
@@ -918,6 +925,7 @@ theorem sentTask_step (h : Hub) (op : Op) (hs : SentTask h) : SentTask (step h o
       obtain ⟨t0, ht0, hi, _, _, _, _, _, hsent, _⟩ := responseTasks_mem h w rid st t ht
       rw [hsent] at hr; rw [hi]; exact hs t0 ht0 r hr
   | close w => simp only [step, close]; split <;> exact hs
+  | sendFail w => simp only [step, sendFail]; split <;> exact hs
   | advance n => exact hs
   | drop c => simp only [step]; split <;> exact hs
   | tick =>
@@ -1034,6 +1042,7 @@ theorem retired_step (h : Hub) (op : Op) (hr : h.retire = true) (hb : Bounds h) 
         · exact h2 e he t to hsrc
         · have := responseEmits_src h rid st e he; simp [this] at hsrc
   | close w => simp only [step, close]; split <;> exact ⟨h1, h2⟩
+  | sendFail w => simp only [step, sendFail]; split <;> exact ⟨h1, h2⟩
   | advance n => exact ⟨h1, h2⟩
   | drop c => simp only [step]; split <;> exact ⟨h1, h2⟩
   | tick =>
@@ -1095,6 +1104,7 @@ theorem logTimed_step (h : Hub) (op : Op) (ht : Timed h) (hl : LogTimed h) : Log
       · exact hl e he t to hs
       · have := responseEmits_src h rid st e he; simp [this] at hs
   | close w => simp only [step, close]; split <;> exact hl
+  | sendFail w => simp only [step, sendFail]; split <;> exact hl
   | advance n => exact hl
   | drop c => simp only [step]; split <;> exact hl
   | tick =>
